@@ -106,6 +106,7 @@ class WorkerComms:
         # worker is working on what task
         self._task_queues: List[mp.JoinableQueue] = []
         self._task_idx: Optional[int] = None
+        self._apply_task_idx = 0
         self._worker_running_task: List[mp.Value] = []
         self._last_completed_task_worker_id = collections.deque()
         self._worker_working_on_job: Optional[mp.Array] = None
@@ -364,7 +365,13 @@ class WorkerComms:
         if kwargs is None:
             kwargs = {}
 
-        worker_id = self._get_task_worker_id()
+        if self.order_tasks:
+            # Apply tasks are handed out in an order of their own, such that they don't disturb the order in which the
+            # chunks of a map call that is still running are handed out
+            worker_id = self._apply_task_idx % self.n_jobs
+            self._apply_task_idx += 1
+        else:
+            worker_id = self._get_task_worker_id()
         self.add_task(None, APPLY_PILL, worker_id)
         self.add_task(job_id, (func, (args, kwargs)), worker_id)
 
